@@ -289,7 +289,7 @@ def _run_shard(args):
     return [parse_out(x) for x in parts]
 
 
-def coq_eval_terms(tag, exprs, shard=4):
+def coq_eval_terms(tag, exprs, shard=8):
     """Like core.coq_eval, but lets Coq print the [out] term itself (printing a term is several times
     faster than building and printing a Coq string of the same size, and needs no deep stack)."""
     import os
@@ -351,7 +351,7 @@ def date_rows(tier, rng):
         ords = set(range(LO + off, HI + 1, 11))
         for y in range(1900, 2101):
             a = DATE(y, 1, 1).toordinal()
-            ords.update(range(max(LO, a - 7), a + 8))
+            ords.update(range(max(LO, a - 4), a + 5))
             b = DATE(y, 3, 1).toordinal()
             ords.update(range(b - 3, b + 2))
     edge = [DATE(1, 1, 1), DATE(1, 1, 2), DATE(9, 12, 31), DATE(10, 1, 1), DATE(99, 12, 31), DATE(100, 1, 1),
@@ -429,7 +429,7 @@ BIN_ORIGINS = [DATE(2000, 1, 1), DATE(2000, 1, 31), DATE(2000, 2, 29), DATE(1999
 def bin_rows(tier, rng):
     near, step = (20, 2477) if tier == 'quick' else (200, 397)
     rows = []
-    for o in BIN_ORIGINS:
+    for o in (BIN_ORIGINS[:7] if tier == 'quick' else BIN_ORIGINS):
         oo = o.toordinal()
         src = set(range(max(LO, oo - near), min(HI, oo + near) + 1))
         src.update(range(LO + rng.randrange(step), HI + 1, step))
@@ -548,7 +548,7 @@ def dec1_rows(tier, rng):
     if tier == 'thorough':
         coefs = list(range(0, 10000, 3)) + [9995, 9999]
     else:
-        coefs = sorted(set(list(range(0, 130)) + [rng.randrange(10000) for _ in range(250)]
+        coefs = sorted(set(list(range(0, 60)) + [rng.randrange(10000) for _ in range(100)]
                            + [k * 10 + 5 for k in range(0, 1000, 37)] + [9995, 9999, 5000, 4999, 5001, 2500, 1250]))
     rows = []
     for x in small_decimals(coefs):
@@ -571,7 +571,7 @@ def div_rows(tier, rng):
     base = [0, 1, 2, 3, 5, 6, 7, 9, 10, 12, 15, 25, 64, 99, 100, 125, 128, 333, 999, 1000, 1024, 2500, 7777, 9999]
     pool = small_decimals(base if tier == 'thorough' else base[::2] + [7, 9999])
     if tier == 'quick':
-        pool = [x for k, x in enumerate(pool) if k % 3 == 0 or x == 0]
+        pool = [x for k, x in enumerate(pool) if k % 4 == 0 or x == 0]
     else:
         pool = [x for k, x in enumerate(pool) if k % 2 == 0 or x == 0]
     ints = [0, 1, -1, 2, 3, 7, -9, 10, 64, 1000, 12345678901234567890123456789012]
@@ -589,7 +589,8 @@ def div_rows(tier, rng):
 
 
 def int_rows(tier, rng):
-    zs = list(range(-130, 131)) + [rng.randint(-10 ** 6, 10 ** 6) for _ in range(300)] + \
+    w, k = (40, 100) if tier == 'quick' else (130, 300)
+    zs = list(range(-w, w + 1)) + [rng.randint(-10 ** 6, 10 ** 6) for _ in range(k)] + \
         [5, 15, 25, 50, 150, 250, 500, 1500, 2500, -5, -15, -25, -50, -150, -250, 10 ** 30 + 5, -(10 ** 30) - 5]
     return [(z, n) for z in zs for n in range(-6, 7)]
 
@@ -893,7 +894,7 @@ def run(tier, rng):
                 'tables) and the Coq model; rows are distinct argument tuples; non-trivial = rows where at least one target '
                 'returned a non-NULL, non-exception value. dates: '
                 + ('every date 1900-01-01..2100-12-31' if tier == 'thorough' else
-                   'every 11th date 1900..2100 (random offset, all weekdays) + 15 days around every New Year + end of every February')
+                   'every 11th date 1900..2100 (random offset, all weekdays) + 9 days around every New Year + end of every February')
                 + ' + edge years, x every date_trunc/date_part field (valid, unknown, wrong case) and extractor; date_bin: 14 strides '
                   '(days/months/years incl. 14 months) + 8 degenerate x 10 origins (incl. day 29/30/31) x sources near the origin, '
                   'on exact bin boundaries and across the range; intervals: month-end dates x 240 well-formed + 21 malformed strings; '
